@@ -39,7 +39,7 @@ class C12(C02):
             "textconv driver through .gitattributes, color.ui/diff always, diff.renames=copies, three diff algorithms, "
             "diff.context, interHunkContext, indentHeuristic, relative, colorMoved, wsErrorHighlight, core.quotePath, "
             "core.pager / GIT_PAGER / PAGER, GIT_DIFF_OPTS, blame.* display settings, notes.displayRef, status.short/branch, "
-            "log.decorate) and an invocation context (repository root, a subdirectory, another directory with -C); parsed "
+            "log.decorate) and an invocation context (repository root, a subdirectory, another directory with -C, -C through a symlinked spelling of the path); parsed "
             "notes of corresponding commits (ids coincide), blame --json of every file and stats --json must be equal. distinct = digest of family x ops x knob set; non-trivial = AI "
             "line observed")
     assumptions = ["only settings under which plain git keeps working are drawn", "settings that change what git does "
@@ -64,7 +64,7 @@ class C12(C02):
         knobs = rng.sample(KNOBS, rng.randint(1, 6))
         if h["cfg"]["families"][0] == "renames" and rng.random() < 0.6 and ("diff", "renames", "false") not in knobs:
             knobs.append(("diff", "renames", "false"))     # rename detection off vs. the default (on)
-        ctx = rng.choice([None, "subdir", "dash_C", "dash_C"])
+        ctx = rng.choice([None, "subdir", "dash_C", "dash_C", "symlink_C"])
         env = rng.choice(GIT_ENVS) if rng.random() < 0.4 else {}
         if h["cfg"]["families"][0] == "stash_pathspec" and env.get("GIT_DIFF_OPTS") == "--unified=0":
             # plain git itself cannot `stash push -- <path>` with zero-context diffs (its internal diff | apply -R
